@@ -176,7 +176,7 @@ ADDENDA = {
  "C12": " Also: the hierarchy built on the orjson mixin with from_dict / from_json interleaved, an abstract intermediate class, and the invariant that the user's Discriminator object stays as written. Two discriminated fields over one hierarchy in one codec, a tagger function returning None for one class.",
  "C13": " Also: the format-mixin family (dict / orjson / msgpack calls interleaved), a family with TypedDict / NamedTuple-with-default / Union fields, and dialect options written on a parent Dialect class. Generic classes and late-defined classes in the histories; codecs with direct / inherited / split dialects against an absolute anchor, including a bytes field under msgpack.",
  "C14": " Also: a class-level discriminator family (histories and three thread harnesses on its tag registry), helper-method kinds, an explicit encoder argument on a first call. A family whose last class is defined by an operation of the history (forward reference resolved late); thorough tier: one depth-4 search per first operation, 32 shards per bound-2 schedule harness.",
- "C15": " Also: one-shot functions called in sequence with equal-but-different shapes (order-permuted unions, 21 member pairs x 4 spellings). Tuple types with a first / last union member and sibling fields.",
+ "C15": " Also: one-shot functions called in sequence with equal-but-different shapes (order-permuted unions, 21 member pairs x 4 spellings). Tuple types with a first / last union member and sibling fields; format codecs built with an empty default_dialect against the same codecs built without.",
  "C16": " Also: Literal strings as arguments of twin specialisations of a generic dataclass, and long strings.",
  "C17": " Also: distinct classes with the same __qualname__ in two modules or non-ASCII names of equal length (fields, tuple, union, list, generic arguments), a generic base specialised with a local class, every depth-2 schema with a user class under a wrapper. Twins behind forward references.",
  "C18": " Also: two sources of no_copy_collections at once (10 listing pairs), the builtins list / dict without parameters, and a decode-side check that excludes only the Any zones. mappingproxy-typed fields (seen through gc referents), call-level vs Config vs orjson-dialect routes in pairs.",
